@@ -309,6 +309,16 @@ def strings(draw):
                                        st.integers(0, 99999).map(str), st.sampled_from(["EST", "UTC", "+0530", "pst", "Z"])),
                              min_size=1, max_size=7))
         return draw(st.sampled_from([" ", " ", ", ", "-", "/"])).join(toks)[:100], "soup"
+    if k <= 7 and draw(st.integers(0, 2)) == 0:
+        # a counted relative pattern of a language's vocabulary, instantiated (every number group gets a number)
+        lang = draw(st.sampled_from(data.language_order()))
+        pats = data.relative_patterns(data.raw_info(lang))
+        if pats:
+            from checks import c06
+            key, pat = pats[draw(st.integers(0, len(pats) - 1))]
+            outs = c06.instantiate(pat, str(draw(st.sampled_from([0, 1, 2, 30, 120, 5000]))))
+            if outs:
+                return outs[draw(st.integers(0, len(outs) - 1))][:100], "soup"
     if k <= 7:
         if draw(st.booleans()):
             # "residue" strings: once the library has popped the zone / dropped skip words there is little or nothing left
